@@ -29,6 +29,7 @@ def ValidOp : Op → Prop
 def GoodCrash : State → Op → Prop
   | some q, .crashAppend b k => ∀ o, (q.crashAppendFiles b k).2 = some o → o.footerLike = false
   | some q, .crashAdv k => ∀ o, (q.crashAdvFiles verifyAll k).2 = some o → o.footerLike = false
+  | some q, .crashSeg b k => ∀ o, (q.crashSegFiles b k).2 = some o → o.same ≠ 0
   | _, _ => True
 
 def GoodRun : State → List Op → Prop
@@ -324,6 +325,35 @@ theorem sim_crashAdv {q : Q} {w : World} {B : Nat} (h : Sim q w B) (k : Nat)
       exact hne y (List.mem_of_mem_drop hy)
 
 
+theorem step_crashSeg (q : Q) (b : Bytes) (k : Nat) (q' : Q)
+    (h : qOpen verifyAll q.maxSize q.maxSeg (q.crashSegFiles b k).1 = some q') :
+    ∃ sz f sm, step (some q) (.crashSeg b k) = (some q', .crashed true sz f sm) := by
+  simp only [step]
+  rw [show q.crashSegFiles b k = ((q.crashSegFiles b k).1, (q.crashSegFiles b k).2) from rfl]
+  simp only [reopenWith, h]
+  cases (q.crashSegFiles b k).2 with
+  | none => exact ⟨_, _, _, rfl⟩
+  | some o => exact ⟨_, _, _, rfl⟩
+
+theorem sim_crashSeg {q : Q} {w : World} {B : Nat} (h : Sim q w B) (b : Bytes) (k : Nat)
+    (hgood : GoodCrash (some q) (.crashSeg b k)) :
+    ∃ w' q', (step (some q) (.crashSeg b k)).1 = some q' ∧
+      w' ∈ wstep w (.crashSeg b k) (step (some q) (.crashSeg b k)).2 ∧ Sim q' w' B := by
+  obtain ⟨pre, done, r, rs, hq, hlog, hcur, hlo, hne⟩ := h.ex
+  obtain ⟨q', h1, h2, h3, done', r', rs', h4, h5, h6⟩ := qwf_crashSeg hq h.cfg b k hgood
+  obtain ⟨sz, f, sm, hstep⟩ := step_crashSeg q b k q' h1
+  rw [hstep]
+  refine ⟨{ log := w.log, cur := w.cur, lo := max w.lo w.cur }, q', rfl, ?_, ?_⟩
+  · simp only [wstep]; exact mem_reopenAt _ _ _ _ hlo
+  · rcases h6 with rfl | ⟨rfl, rfl⟩
+    · exact ⟨⟨pre, done', r', rs', by rw [h2]; exact h4, by rw [h5]; exact hlog, hcur, by simp; omega,
+        by rw [h5]; exact hne⟩, by rw [h2, h3]; exact h.cfg⟩
+    · refine ⟨⟨pre ++ done, [], r', rs', by rw [h2]; exact h4, by rw [h5]; simp [hlog], by simp [hcur],
+        by simp; omega, ?_⟩, by rw [h2, h3]; exact h.cfg⟩
+      intro y hy
+      rw [h5] at hy
+      exact hne y (by simp only [List.nil_append] at hy; exact List.mem_append_right _ hy)
+
 theorem Sim.mono {q : Q} {w : World} {B B' : Nat} (h : Sim q w B) (hB : B' ≤ B) : Sim q w B' := by
   obtain ⟨pre, done, r, rs, hq, rest⟩ := h.ex
   exact ⟨⟨pre, done, r, rs, hq.mono hB, rest⟩, h.cfg⟩
@@ -354,6 +384,7 @@ theorem sim_step (B : Nat) (s : State) (ss : SpecState) (op : Op) (hr : Rel B s 
       | reopen => simp [step, sstep, Rel]
       | crashAppend b k => simp [step, sstep, Rel]
       | crashAdv k => simp [step, sstep, Rel]
+      | crashSeg b k => simp [step, sstep, Rel]
       | stat => simp [step, sstep, Rel]
   | some q =>
     cases ss with
@@ -395,6 +426,11 @@ theorem sim_step (B : Nat) (s : State) (ss : SpecState) (op : Op) (hr : Rel B s 
         simp only [sstep]
         rw [hq']
         exact ⟨w', mem_flatMap_of hw hw', hs'⟩
+      | crashSeg b k =>
+        obtain ⟨w', q', hq', hw', hs'⟩ := sim_crashSeg hsim b k hg
+        simp only [sstep]
+        rw [hq']
+        exact ⟨w', mem_flatMap_of hw hw', hs'⟩
       | stat =>
         simp only [step, sstep]
         exact ⟨w, mem_flatMap_of hw (by simp [Q.statAns, wstep]), hsim.mono (Nat.sub_le _ _)⟩
@@ -425,6 +461,9 @@ def goodCrashB : State → Op → Bool
   | some q, .crashAdv k => match (q.crashAdvFiles verifyAll k).2 with
     | none => true
     | some o => !o.footerLike
+  | some q, .crashSeg b k => match (q.crashSegFiles b k).2 with
+    | none => true
+    | some o => o.same != 0
   | _, _ => true
 
 def goodRunB : State → List Op → Bool
@@ -442,6 +481,11 @@ theorem goodCrash_of_B (s : State) (op : Op) (h : goodCrashB s op = true) : Good
       rw [ho] at h
       simpa using h
     | crashAdv k =>
+      simp only [goodCrashB] at h
+      intro o ho
+      rw [ho] at h
+      simpa using h
+    | crashSeg b k =>
       simp only [goodCrashB] at h
       intro o ho
       rw [ho] at h
@@ -465,6 +509,7 @@ def noCrash : List Op → Bool
   | [] => true
   | .crashAppend _ _ :: _ => false
   | .crashAdv _ :: _ => false
+  | .crashSeg _ _ :: _ => false
   | _ :: ops => noCrash ops
 
 theorem goodRun_of_noCrash : ∀ (ops : List Op) (s : State), noCrash ops = true → GoodRun s ops
@@ -473,6 +518,7 @@ theorem goodRun_of_noCrash : ∀ (ops : List Op) (s : State), noCrash ops = true
     cases op with
     | crashAppend _ _ => simp [noCrash] at h
     | crashAdv _ => simp [noCrash] at h
+    | crashSeg _ _ => simp [noCrash] at h
     | openQ _ _ => exact ⟨by cases s <;> trivial, goodRun_of_noCrash ops _ (by simpa [noCrash] using h)⟩
     | append _ => exact ⟨by cases s <;> trivial, goodRun_of_noCrash ops _ (by simpa [noCrash] using h)⟩
     | cur => exact ⟨by cases s <;> trivial, goodRun_of_noCrash ops _ (by simpa [noCrash] using h)⟩
@@ -498,6 +544,7 @@ theorem validOp_of_B (op : Op) (h : validOpB op = true) : ValidOp op := by
   | scan _ => trivial
   | reopen => trivial
   | crashAdv _ => trivial
+  | crashSeg _ _ => trivial
   | stat => trivial
 
 end Influx.DQ
